@@ -10,6 +10,7 @@ Driver for C06. Lines (one output line per input line):
 * `dao funds=<…> fee=<n> denom=<d>`
 * `mintfee kind=<0..8> price=<n> bps=<n> dev=<a>` — integration: one public mint on a real minter of that kind
 * `createfee fk=<0..3> fd=<0|1> md=<0|1> fee=<n> pay=<n> factory=<a>` — integration: CreateMinter on a real factory (creation fee in denom fd, minimum price in denom md)
+* `wlfee kind=<0..3> ml=<n> nml=<n> wl=<a>` — integration: whitelist creation fee and IncreaseMemberLimit fee (exact payments)
 * `shufflefee kind=<0..5> fee=<n> pay=<n> minter=<a>` — integration: Shuffle paying `pay` on a factory whose shuffle fee is `fee`
 
 Output: `ok <msgs>` or `err`.
@@ -61,6 +62,15 @@ def c06Line (line : String) : String :=
       | .ok ms => if !Sg1.allNonzero ms then pure "err" else
           pure s!"ok burned={Sg1.burnedBy ms} pool={Sg1.sentTo FAIRBURN_POOL ms} lp={Sg1.sentTo LAUNCHPAD_DAO ms}"
       | .error _ => pure "err"
+    | some "wlfee" => do
+      -- integration: a real list whitelist created with member limit `ml` (exact fee), then IncreaseMemberLimit to `nml` (exact fee)
+      let k ← natKv ws "kind"; let ml ← natKv ws "ml"; let nml ← natKv ws "nml"; let self ← natKv ws "wl"
+      let per := match k with
+        | 0 => Gen.sg_whitelist_PRICE_PER_1000_MEMBERS | 1 => Gen.sg_whitelist_flex_PRICE_PER_1000_MEMBERS
+        | 2 => Gen.sg_tiered_whitelist_PRICE_PER_1000_MEMBERS | _ => Gen.sg_tiered_whitelist_flex_PRICE_PER_1000_MEMBERS
+      let f1 := Sg1.wlCreationFee per ml; let f2 := Sg1.wlUpgradeFee per ml nml
+      let m1 := Sg1.wlFeeMsgs self f1; let m2 := Sg1.wlFeeMsgs self f2
+      pure s!"ok fee1={f1} burned1={Sg1.burnedBy m1} pool1={Sg1.sentTo FAIRBURN_POOL m1} fee2={f2} burned2={Sg1.burnedBy m2} pool2={Sg1.sentTo FAIRBURN_POOL m2} held=0"
     | _ => none
   r.getD "bad-op"
 
